@@ -998,7 +998,7 @@ def main_c13(tier, seed):
         finally:
             tlc.cleanup(res)
         if tier == "thorough":       # histories of four events (model checking only; the replay enumerates its own 4-event histories)
-            r4 = tlc.run("Views", "Views_thorough.cfg", timeout=1800)
+            r4 = tlc.run("Views", "Views_thorough.cfg", timeout=5400)
             if r4.violated:
                 run.machinery("TLC: %s violated on Views_thorough\n%s" % (r4.violated, r4.stdout[-1200:]))
             else:
